@@ -62,6 +62,29 @@ def run_case(spec, ctx):
             thunks.append(("Sphere.prox", {"x": x, "z": z, "r": ball.r}, (lambda a=x, c=z: ball.prox(a.copy(), c))))
             thunks.append(("Sphere.prox", {"x": x, "z": z, "r": ball.r, "instance": "fresh"}, (lambda a=x, c=z: Sphere(ball.r).prox(a.copy(), c))))
         purity_check(ctx, rng, thunks, mon="purity", scribble=True)
+        # work arrays: a Newton / fixed-point loop keeps ONE x and ONE y array and updates their contents in place between
+        # calls; what the ball answers must depend on the contents, not on the identity of the arrays
+        for _ in range(4):
+            n = int(rng.integers(1, 5))
+            xw, yw = np.zeros(n), np.zeros(n)
+            for it in range(4):
+                xw[:] = _vec(rng, n); yw[:] = _vec(rng, n)
+                z, rho = _z(rng), float(loguniform(rng, 1e-3, 1e3))
+                ctx.mon("purity")
+                zz = np.array([z])
+                try:
+                    act = bool(rng.random() < 0.3)      # both branches of the implicit residual, whatever the true active set is
+                    got = [np.array(ball.prox(xw, z)), np.array(ball.residual(xw, yw, zz, rho, act)), *[np.array(J) for J in ball.Jacobian(xw, yw, zz, rho, act)]]
+                    fresh = Sphere(ball.r)
+                    ref = [np.array(fresh.prox(xw.copy(), z)), np.array(fresh.residual(xw.copy(), yw.copy(), zz.copy(), rho, act)),
+                           *[np.array(J) for J in fresh.Jacobian(xw.copy(), yw.copy(), zz.copy(), rho, act)]]
+                except Exception as e:
+                    ctx.count(f"workarray_exception:{type(e).__name__}")
+                    break
+                if any(a.shape != b.shape or not np.array_equal(a, b, equal_nan=True) for a, b in zip(got, ref)):
+                    ctx.violation("Sphere.residual/Jacobian", "result for work arrays updated in place differs from the result for fresh copies of the same values (depends on the call history)",
+                                  {"x": xw.copy(), "y": yw.copy(), "z": z, "rho": rho, "r": ball.r, "iteration": it})
+                    break
         ctx.cls("kind:purity")
         ctx.sig([kind, sig[:3]], nontrivial=True)
         ctx.sample({"kind": kind, "calls": len(thunks)})
